@@ -372,6 +372,11 @@ def hint_names(detail):
             m = re.match(r"target (\S+) failed$", text)
             if m:
                 n = m.group(1)
+        elif kind == "warning":
+            # an overridden target handled out of band leaves only this record
+            m = re.match(r"(\S+) - you modified it; skipping$", text)
+            if m:
+                n = m.group(1)
         if n and n not in out and " " not in n:
             out.append(n)
     return out
